@@ -19,6 +19,7 @@ import r_ladder
 import r_repstate
 import r_shape
 import r_family
+import r_rngprov
 import witness
 
 
@@ -459,6 +460,21 @@ def c20(facts, tier):
     return rep
 
 
+def c16(facts, tier):
+    rep = Report("C16", tier, facts,
+                 "R-RNGPROV: (fresh) the entropy source is real (factory draws from OS entropy, HeContext builds the "
+                 "factory with new(), from_seed/set_seed have no library caller, no generator cached in a field/static) "
+                 "and every secret sampler / worker call in rlwe.rs, key.rs, encryptor.rs is fed by an entropy generator "
+                 "created in the call or by the caller's generator; (mask) with an explicit generator the stored seed and "
+                 "c1 derive from it only; (pure) nothing nondeterministic reachable from BlakeRNG's stream; (rns) small "
+                 "samples are drawn once per coefficient outside the RNS-component loop; (seedrt) seed stored and expanded "
+                 "at the same address/length, both through from_seed -> uniform.",
+                 "independence of the byte stream from read chunking, non-repetition, difference between seeds, the "
+                 "shape of the empirical distributions, the numeric bound 21.")
+    r_rngprov.run_c16(facts, rep)
+    return rep
+
+
 def c18(facts, tier):
     rep = Report("C18", tier, facts,
                  "R-SCHEME(pair): per scheme projection, multiparty::decrypt_polynomial reaches the same RNSTool decoder, "
@@ -474,6 +490,8 @@ def c18(facts, tier):
     rep.floor("R-GUARD(complete)", "finish functions checked", n, 8)
     n = r_scheme.run_commute(facts, rep)
     rep.floor("R-COMMUTE", "message handlers", n, 1)
+    n = r_rngprov.run_tape(facts, rep)
+    rep.floor("R-RNGPROV(tape)", "sampler call sites in the multiparty layer", n, 8)
     ents = [p for p in facts.items if p.startswith("multiparty::participant::") and facts.items[p]["vis"] == "pub"
             and facts.items[p].get("impl_self")]
     repstate(facts, rep, ents, 150)
@@ -520,6 +538,7 @@ def c13(facts, tier):
 
 CHECKS = {
     "C02": c02,
+    "C16": c16,
     "C13": c13,
     "C14": c14,
     "C18": c18,
